@@ -57,8 +57,7 @@ OBLIGATIONS = [
 TRUSTED = ["hand-written model SkVerif/Model/Metrics.lean of _functions.py / _classes.py over exact rationals",
            "numpy (np.average, np.median, np.where, broadcasting), scipy gmean, sklearn _weighted_percentile / mean_absolute_error / "
            "median_absolute_error / mean_squared_error as black boxes (sklearn 0.24 semantics of the private "
-           "_check_reg_targets signature and of mean_squared_error(squared=False) come from skcompat.patch_metrics, the latter "
-           "refined module-scoped in corr/C06.py so that bad output weights are a ValueError as in 0.24)",
+           "_check_reg_targets signature and of mean_squared_error(squared=False) come from skcompat.patch_metrics)",
            "np.sqrt / exp-log geometric mean are compared through radicand + root degree (the float root is taken by the harness)"]
 ASSUMPTIONS = ["exact arithmetic: theorems are over Rat and say nothing about float rounding; inputs are dyadic rationals",
                "horizon weights and multioutput weights are >= 0 (negative weights: weighted percentile undefined, outside the model)",
@@ -118,30 +117,11 @@ _FMOD = None
 
 
 def _mod():
-    """the real module under skcompat.patch_metrics, plus one module-scoped refinement of the emulated
-    `sklearn.metrics.mean_squared_error(squared=False)`: sklearn 0.24 (pinned by sktime 0.6.0) validates `multioutput`
-    through `_check_reg_targets` (ValueError) before it takes the root per output column and averages;
-    sklearn 1.7's `root_mean_squared_error`, which skcompat delegates to, skips that validation and lets np.average
-    fail with a TypeError on output weights of the wrong length."""
+    """the real module (skcompat.patch_metrics restores sklearn 0.24's private API it was written against,
+    including `mean_squared_error(squared=False)`: validation, RMSE per output column, then averaged)"""
     global _FMOD
     if _FMOD is None:
         import sktime.performance_metrics.forecasting._functions as F
-        import sklearn.metrics._regression as R
-        from sklearn.metrics import mean_squared_error as mse17
-        compat_mse = F._mean_squared_error
-
-        def _mse_024(y_true, y_pred, *, sample_weight=None, multioutput="uniform_average", squared=True):
-            if squared:
-                return compat_mse(y_true, y_pred, sample_weight=sample_weight, multioutput=multioutput, squared=True)
-            out = R._check_reg_targets(y_true, y_pred, sample_weight, multioutput)
-            y_true, y_pred, sample_weight, multioutput = out[1], out[2], out[3], out[-1]
-            errs = np.sqrt(mse17(y_true, y_pred, sample_weight=sample_weight, multioutput="raw_values"))
-            if isinstance(multioutput, str):
-                if multioutput == "raw_values":
-                    return errs
-                multioutput = None
-            return np.average(errs, weights=multioutput)
-        F._mean_squared_error = _mse_024
         _FMOD = F
     return _FMOD
 
@@ -269,19 +249,25 @@ def run_real(c):
         import sktime.performance_metrics.forecasting as M
         _mod()
         yt, yp, yb, ytr = _inputs(c)
-        kw = {}
+        ctor = {}
         if m in PCT:
-            kw["symmetric"] = c["sym"]
+            ctor["symmetric"] = c["sym"]
         if m in HAS_SQRT:
-            kw["square_root"] = c["sqrt"]
+            ctor["square_root"] = c["sqrt"]
         if m in SCALED:
-            kw["sp"] = c["sp"]
+            ctor["sp"] = c["sp"]
         if m == "masym":
-            kw.update(asymmetric_threshold=c["thr"], left_error_function=c["l"], right_error_function=c["r"])
+            ctor.update(asymmetric_threshold=c["thr"], left_error_function=c["l"], right_error_function=c["r"])
         if m == "relloss":
-            kw["relative_loss_function"] = getattr(_mod(), FUNCS[c["rlf"]])
-        cls = _try(lambda: getattr(M, CLASSES[m])(**kw)(yt, yp))
-        fn = _try(lambda: _call(c, yt, yp, yb, ytr, hw=None, mo="uni"))
+            ctor["relative_loss_function"] = getattr(_mod(), FUNCS[c["rlf"]])
+        o = _opts(c)
+        kw = {"horizon_weight": o["horizon_weight"], "multioutput": o["multioutput"]}
+        if m in SCALED:
+            kw["y_train"] = ytr
+        if m in RELATIVE:
+            kw["y_pred_benchmark"] = yb
+        cls = _try(lambda: getattr(M, CLASSES[m])(**ctor)(yt, yp, **kw))
+        fn = _try(lambda: _call(c, yt, yp, yb, ytr))
         return "cls=%s fn=%s" % (cls, fn)
     yt, yp, yb, ytr = _inputs(c)
     main = _try(lambda: _call(c, yt, yp, yb, ytr))
@@ -835,8 +821,6 @@ def random_case(rng, m=None, via="f"):
     m = m or rng.choice(METRICS)
     n = rng.choice((1, 2, 2, 3, 3, 4, 4, 5, 6, 7, 8, 10, 12))
     k = rng.choice((1, 1, 1, 2, 2, 3))
-    if m in GM and rng.random() < 0.25:
-        k = rng.choice((1, n))       # the two shapes on which the weighted geometric mean does not raise
     st = rng.choice(STYLES)
     yt = [_series(rng, n, st) for _ in range(k)]
     r = rng.random()
@@ -862,9 +846,7 @@ def random_case(rng, m=None, via="f"):
         ytr = [_series(rng, ln, rng.choice(STYLES)) for _ in range(k)]
     hw = _weights(rng, n) if rng.random() < 0.5 else None
     r = rng.random()
-    if via == "c":
-        mo, hw = "uni", None
-    elif k > 1 and r < 0.35:
+    if k > 1 and r < 0.35:
         mo = [float(rng.randrange(0, 4)) for _ in range(k)]
         if sum(mo) == 0:
             mo[0] = 1.0
@@ -935,7 +917,7 @@ def malformed_case(rng):
             cc[f_] = [col[:1] for col in cc[f_]]
         cc["oned"] = False
         return cc
-    else:               # weighted geometric mean on a shape numpy cannot broadcast
+    else:               # weighted geometric mean (regression of the former broadcasting defect), mostly valid
         cc = random_case(rng, rng.choice(GM))
         cc["hw"] = _weights(rng, len(cc["yt"][0]))
         return cc
